@@ -37,19 +37,19 @@ type workerArgs struct {
 }
 
 type ReplayFile struct {
-	Property string              `json:"property"`
-	Clause   string              `json:"clause"`
-	Sig      string              `json:"sig"`
-	Detail   string              `json:"detail"`
-	Seed     uint64              `json:"seed"`
-	Run      uint64              `json:"run"`
-	Tier     string              `json:"tier"`
-	Race     bool                `json:"race_binary"`
-	Tape     map[string][]uint32 `json:"tape"`
-	Minimised bool               `json:"minimised"`
-	OrigLen  int                 `json:"original_tape_len"`
-	Case     interface{}         `json:"case,omitempty"`
-	Log      []string            `json:"event_log,omitempty"`
+	Property  string              `json:"property"`
+	Clause    string              `json:"clause"`
+	Sig       string              `json:"sig"`
+	Detail    string              `json:"detail"`
+	Seed      uint64              `json:"seed"`
+	Run       uint64              `json:"run"`
+	Tier      string              `json:"tier"`
+	Race      bool                `json:"race_binary"`
+	Tape      map[string][]uint32 `json:"tape"`
+	Minimised bool                `json:"minimised"`
+	OrigLen   int                 `json:"original_tape_len"`
+	Case      interface{}         `json:"case,omitempty"`
+	Log       []string            `json:"event_log,omitempty"`
 }
 
 type foundViolation struct {
@@ -60,25 +60,25 @@ type foundViolation struct {
 }
 
 type workerSummary struct {
-	Prop        string           `json:"prop"`
-	Race        bool             `json:"race"`
-	Runs        int              `json:"runs"`
-	Judged      int              `json:"judged"`
-	Discarded   map[string]int   `json:"discarded"`
-	Nontrivial  int              `json:"nontrivial"`
-	Hashes      []uint64         `json:"nontrivial_hashes"`
-	SimTimeNs   int64            `json:"sim_time_ns"`
-	Steps       int64            `json:"steps"`
-	Decisions   int64            `json:"decisions"`
-	Switches    int64            `json:"switches"`
-	Stats       map[string]int64 `json:"stats"`
-	Violations  []foundViolation `json:"violations"`
-	Samples     []interface{}    `json:"samples"`
-	WallS       float64          `json:"wall_s"`
-	Error       string           `json:"error,omitempty"`
-	From        uint64           `json:"from"`
-	To          uint64           `json:"to"`
-	StoppedAt   uint64           `json:"stopped_at"`
+	Prop       string           `json:"prop"`
+	Race       bool             `json:"race"`
+	Runs       int              `json:"runs"`
+	Judged     int              `json:"judged"`
+	Discarded  map[string]int   `json:"discarded"`
+	Nontrivial int              `json:"nontrivial"`
+	Hashes     []uint64         `json:"nontrivial_hashes"`
+	SimTimeNs  int64            `json:"sim_time_ns"`
+	Steps      int64            `json:"steps"`
+	Decisions  int64            `json:"decisions"`
+	Switches   int64            `json:"switches"`
+	Stats      map[string]int64 `json:"stats"`
+	Violations []foundViolation `json:"violations"`
+	Samples    []interface{}    `json:"samples"`
+	WallS      float64          `json:"wall_s"`
+	Error      string           `json:"error,omitempty"`
+	From       uint64           `json:"from"`
+	To         uint64           `json:"to"`
+	StoppedAt  uint64           `json:"stopped_at"`
 }
 
 var progress int64
